@@ -223,7 +223,7 @@ def json_metadata(r, n=None, rich=True):
     if not rich:
         pool = pool[:1] + pool[2:4] + pool[5:6]
     for i in range(n):
-        key = r.choice(["user", "date", "lab", "comment", "project", "machine", "activation_temperature", "iso_ref", "note_%d" % i, "Ключ", "key with space"])
+        key = r.choice(["user", "date", "lab", "comment", "project", "machine", "activation_temperature", "iso_ref", "note_%d" % i, "Ключ", "key with space", "_flags", "__version__", "_id"])
         if key in RESERVED_KEYS:
             continue
         out[key] = r.choice(pool)()
